@@ -1,6 +1,6 @@
 SPECIFICATION SpecK
 CONSTANTS
-  MaxOff = 4
+  MaxOff = 5
   RollAt = 2
   NDel = 1
   NCons = 0
@@ -10,9 +10,9 @@ CONSTANTS
   NLook = 1
   NextFirst = TRUE
   EmptyHeadGuard = TRUE
-  GuardBroad = FALSE
+  GuardBroad = TRUE
   NSync = 0
   SyncHoldsLock = TRUE
 VIEW kview
-INVARIANTS HeadFlagOK EmitK
+INVARIANTS HeadFlagOK
 CHECK_DEADLOCK FALSE
